@@ -13,7 +13,7 @@ import json
 import os
 from typing import Any, Dict, List
 
-from ..absint import App, FuncRef, Hooks, Interp, Sym, vrepr
+from ..absint import vkey, Builtin, App, FuncRef, Hooks, Interp, Sym, vrepr
 from ..model import AnalysisError, Repo
 from ..report import Check
 
@@ -31,7 +31,18 @@ class OpHooks(Hooks):
     def inline(self, it, fi):
         if fi.module.name == OPF:
             return True
-        return fi.qualname in (f'{MF}.forge_bool', f'{MF}.forge_int16', f'{MF}.forge_int32', f'{MF}.forge_script')
+        return fi.qualname in (f'{MF}.forge_bool', f'{MF}.forge_int16', f'{MF}.forge_int32', f'{MF}.forge_script', f'{MF}.forge_array')
+
+    def isinstance(self, it, obj, classes):
+        # the fields of an operation content are JSON values: strings (only the results of encoders are bytes)
+        names = {c.name for c in classes if isinstance(c, Builtin)}
+        if isinstance(obj, Sym):
+            return 'str' in names
+        if isinstance(obj, App) and obj.op in ('mcall:encode', 'call:bytes.fromhex', 'cat') or (isinstance(obj, App) and obj.op.startswith('call:')):
+            return bool(names & {'bytes', 'bytearray'})
+        if isinstance(obj, bytes):
+            return bool(names & {'bytes'})
+        return NotImplemented
 
     def truth(self, it, term):
         if isinstance(term, Sym):
@@ -73,8 +84,33 @@ def tokens(v: Any, reserved_keys) -> List[Any]:
         pos = [a for a in v.args if not (isinstance(a, App) and a.op == 'kw')]
         if q == 'cat':
             out: List[Any] = []
-            for a in v.args:
+            args = list(v.args)
+            i = 0
+            while i < len(args):
+                a = args[i]
+                # forge_array inlined: len(P).to_bytes(n, 'big') followed by P itself is the dynamic field `dyn(P)`; a length taken of anything
+                # else than the bytes that follow (e.g. of the text before it is encoded) is not a length prefix of that field
+                if isinstance(a, App) and a.op == 'mcall:to_bytes' and isinstance(a.args[0], App) and a.args[0].op == 'len' and len(a.args) >= 3 and a.args[2] == 'big':
+                    measured, nb = a.args[0].args[0], a.args[1]
+                    rest = args[i + 1:]
+                    # the payload may itself be a concatenation: take the longest run of following parts whose concatenation is the measured term
+                    from ..absint import cat as _cat
+                    took = None
+                    for j in range(len(rest), 0, -1):
+                        if vkey(_cat(*rest[:j])) == vkey(measured):
+                            took = j
+                            break
+                    if took is None and isinstance(measured, bytes) and not measured and not rest:
+                        took = 0
+                    if took is None:
+                        out.append(['length-of-something-else', vrepr(measured)[:60]])
+                        i += 1
+                        continue
+                    out.append(['dyn' if nb == 4 else f'dyn{nb}', tokens(_cat(*rest[:took]) if took else b'', reserved_keys)])
+                    i += 1 + took
+                    continue
                 out += tokens(a, reserved_keys)
+                i += 1
             return out
         if q == f'call:{MF}.forge_address':
             tz = kws.get('tz_only', pos[1] if len(pos) > 1 else False)
@@ -102,6 +138,8 @@ def tokens(v: Any, reserved_keys) -> List[Any]:
             return [['reserved-entrypoint-tag', fname(v.args[1])]]
         if q == 'op':
             return [['content', fname(v.args[0])]]
+    if isinstance(v, Sym):
+        return [['raw', v.name]]  # a content field handed on without any encoder (never what the protocol schema says)
     raise AnalysisError(f'forger emits a term the schema normaliser does not model: {vrepr(v)}')
 
 
